@@ -883,7 +883,9 @@ class VM:
             method_order = ["valueOf", "toString"]
 
         for method_name in method_order:
-            method = value.get(method_name)
+            # Look the method up the way script code would (arrays, functions and
+            # regexes provide theirs through _get_property, not as stored properties)
+            method = self._get_property(value, method_name)
             if method is UNDEFINED or method is NULL:
                 continue
             if isinstance(method, JSFunction):
